@@ -150,6 +150,8 @@ let dispatch fn args =
   | p, args when List.mem_assoc p preds -> VB ((List.assoc p preds) (List.map wval args))
   | "c12_pred", [k; q; names; before; after] ->
     VB (c12_pred (n_of_int (gi k)) (qarg q) (gl gs names) (wval before) (wval after))
+  | "kf_f29", [k; q; names; before; after] ->
+    VB (kf_f29 (n_of_int (gi k)) (qarg q) (gl gs names) (wval before) (wval after))
   | "c15_np_pred", [a; VS o] -> VB (c15_np_pred (gs a) (str_of_ints o))
   | "c15_np_pred", [_; _] -> VB false
   | _ -> failwith ("unknown function " ^ fn)
